@@ -505,4 +505,7 @@ def run(run, model):
     # the value of `a / b / c` and `a * b / c` depends on the associativity the parser gives * and / (shared with C11 R11.1)
     from rules import c11 as _c11
     run.try_rule(_c11.r11_1, model)
+    # an arithmetic node that returns one operand in place of the operation (shared with C09 R09.14)
+    from rules import c09 as _c09
+    run.try_rule(_c09.r09_14, model)
     run.assume("Go's sized integer/float types implement wrap-around, truncating division and IEEE rounding (outside the repository)")
